@@ -50,9 +50,16 @@ for d, _, fs in os.walk(ROOT + '/shim'):
             rep['/repo/zzverif/' + os.path.relpath(src, ROOT + '/shim')] = src
 patches = json.load(open(os.path.join(root, 'PATCHES.json')))
 os.makedirs(outdir, exist_ok=True)
+# a changed copy of a repository file supplied through VERIF_EXTRA_OVERLAY (seeded or candidate change checked
+# without touching /repo) is the text the hooks are patched into, as if the change were in the working tree
+changed = {}
+mutant = os.environ.get('VERIF_EXTRA_OVERLAY', '')
+if mutant and mutant in args and os.path.exists(mutant):
+    changed = json.load(open(mutant))
+patched = set()
 for p in patches:
     src = '/repo/' + p['file']
-    s = open(src).read()
+    s = open(changed.get(src) or src).read()
     for old, new in p['replace']:
         if s.count(old) != 1:
             sys.stderr.write('mkoverlay: anchor %r occurs %d times in %s\n' % (old, s.count(old), src))
@@ -61,7 +68,11 @@ for p in patches:
     dst = os.path.join(outdir, p['file'].replace('/', '__'))
     open(dst, 'w').write(s)
     rep[src] = dst
+    patched.add(src)
 for extra in args:
     if os.path.exists(extra):
-        rep.update(json.load(open(extra)))
+        m = json.load(open(extra))
+        if extra == mutant:
+            m = {k: v for k, v in m.items() if k not in patched}
+        rep.update(m)
 json.dump({'Replace': rep}, sys.stdout, indent=1)
